@@ -42,6 +42,8 @@ impl Rng {
 }
 
 pub fn hx(f: f64) -> String {
+    // NaNs are canonicalised (sign and payload are not part of any property; Lean's Float.toBits does the same)
+    if f.is_nan() { return "7ff8000000000000".to_string(); }
     format!("{:016x}", f.to_bits())
 }
 pub fn unhx(s: &str) -> f64 {
